@@ -553,7 +553,11 @@ class SubtypeUnpackerBuilder(DiscriminatedUnionUnpackerBuilder):
     def _get_variants_attr(self, spec: ValueSpec) -> str:
         if self._variants_attr is None:
             assert self.discriminator.include_subtypes
-            self._variants_attr = "__mashumaro_subtype_variants__"
+            # a variant is registered once its unpacker for this format is
+            # built, so the registry must not be shared between formats
+            self._variants_attr = (
+                f"__mashumaro_subtype_variants_{spec.builder.format_name}__"
+            )
         return self._variants_attr
 
 
